@@ -243,9 +243,13 @@ impl<const LEVELS: usize> OrderBook<LEVELS> {
     pub fn ask_levels(&self) -> [(Vol, OrderCount); LEVELS] {
         let start = self.bid_ask().1;
         core::array::from_fn(|i| {
-            self.ask_side.vol_and_orders_at_price(
-                start.wrapping_add(Price::try_from(i).unwrap() * self.tick_size),
-            )
+            // A level beyond the price range holds no orders
+            match Price::try_from(i).unwrap().checked_mul(self.tick_size) {
+                Some(offset) => self
+                    .ask_side
+                    .vol_and_orders_at_price(start.wrapping_add(offset)),
+                None => (0, 0),
+            }
         })
     }
 
@@ -271,9 +275,13 @@ impl<const LEVELS: usize> OrderBook<LEVELS> {
     pub fn bid_levels(&self) -> [(Vol, OrderCount); LEVELS] {
         let start = self.bid_ask().0;
         core::array::from_fn(|i| {
-            self.bid_side.vol_and_orders_at_price(
-                start.wrapping_sub(Price::try_from(i).unwrap() * self.tick_size),
-            )
+            // A level beyond the price range holds no orders
+            match Price::try_from(i).unwrap().checked_mul(self.tick_size) {
+                Some(offset) => self
+                    .bid_side
+                    .vol_and_orders_at_price(start.wrapping_sub(offset)),
+                None => (0, 0),
+            }
         })
     }
 
